@@ -118,7 +118,7 @@ class Check:
     # ------------------------------------------------------------ finishing
     def _replay_path(self, ob: Obligation) -> str:
         h = hashlib.sha256(f"{ob.rule}|{ob.construct}".encode()).hexdigest()[:10]
-        d = os.path.join(EVIDENCE_DIR, "replay")
+        d = os.environ.get("QV_REPLAY_DIR") or os.path.join(EVIDENCE_DIR, "replay")
         os.makedirs(d, exist_ok=True)
         path = os.path.join(d, f"{self.pid}-{ob.rule}-{h}.json")
         with open(path, "w", encoding="utf-8") as fh:
@@ -181,7 +181,7 @@ class Check:
         )
         print("\n".join(out))
         sys.stdout.flush()
-        if write_evidence:
+        if write_evidence and not os.environ.get("QV_NO_EVIDENCE"):
             self.write_evidence(violations, known_hit)
         return code
 
